@@ -90,7 +90,12 @@ def pdf1_case(draw):
 
 @st.composite
 def pdf2_case(draw):
-    name = draw(st.sampled_from(['biv_lognormal', 'biv_lognormal', 'biv_ind_gamma']))
+    name = draw(st.sampled_from(['biv_lognormal', 'biv_lognormal', 'biv_ind_gamma', 'narrow-asym']))
+    if name == 'narrow-asym':
+        # concentrated lognormal with different marginals, far from the origin: its density is tiny (but not equal) at small gammas
+        mu1 = draw(st.floats(2.0, 5.0))
+        return dict(name='biv_lognormal', params=[mu1, mu1 + draw(st.floats(1.0, 3.0)), draw(st.floats(0.4, 1.0)), draw(st.floats(0.4, 1.0)),
+                                                  draw(st.floats(-0.5, 0.5))], want_hi=math.exp(mu1 + 1.5))
     if name == 'biv_lognormal':
         rho = draw(st.floats(-0.95, 0.95))
         if draw(st.booleans()):
@@ -179,7 +184,11 @@ def r1(case, rec):
 
 @st.composite
 def c2d(draw):
-    return dict(grid=draw(grid_case(max_pts=12)), pdf=draw(pdf2_case()), seed=draw(st.integers(0, 2 ** 31 - 1)),
+    pdf = draw(pdf2_case())
+    grid = draw(grid_case(max_pts=12))
+    if 'want_hi' in pdf:
+        grid['hi'] = float(min(2000.0, max(grid['hi'], pdf.pop('want_hi'))))
+    return dict(grid=grid, pdf=pdf, seed=draw(st.integers(0, 2 ** 31 - 1)),
                 n1=draw(st.integers(2, 4)), n2=draw(st.integers(2, 4)), theta=draw(st.floats(0.1, 1e4)),
                 blind=draw(st.sampled_from([False, False, True])), exterior=draw(st.sampled_from([True, True, False])),
                 ppos1=draw(st.floats(0.0, 0.5)), ppos2=draw(st.floats(0.0, 0.5)), rho=draw(st.floats(0.0, 1.0)),
